@@ -952,3 +952,35 @@ def opaque_nodes(fn, f):
             if n is not None:
                 res.append(n)
     return res
+
+
+def flow_after(cfg, start_node, stop):
+    """CFG elements (nodes) that can be evaluated after `start_node` on some path, in evaluation order per path, cutting every
+    path at the first element for which stop(node) is true (that element itself is not yielded).  Element granularity: every
+    sub-expression is its own CFG element (the extractor builds the CFG with setAllAlwaysAdd)."""
+    pos = cfg.pos_of(start_node)
+    if not pos:
+        return []
+    fn = cfg.fn
+    out = []
+    seen_blocks = set()
+    work = []
+
+    def scan(bid, i0):
+        blk = cfg.blocks[bid]
+        for e in blk.elems[i0:]:
+            n = fn.nodes.get(e) if e is not None and e >= 0 else None
+            if n is None:
+                continue
+            if stop(n):
+                return
+            out.append(n)
+        for s_ in blk.succ:
+            if s_ is not None and s_ not in seen_blocks:
+                seen_blocks.add(s_)
+                work.append(s_)
+    scan(pos[0], pos[1] + 1)
+    while work:
+        b = work.pop()
+        scan(b, 0)
+    return out
